@@ -410,6 +410,81 @@ func c18ReplacedByLink(dotu bool) Scenario {
 	}}
 }
 
+// c18RootReplaced: in mid-session the host replaces the exported directory itself (the
+// old one renamed away, a new one made under the same name). '..' at the root is
+// still the root - the directory that is exported now.
+func c18RootReplaced(dotu bool) Scenario {
+	name := fmt.Sprintf("the exported directory replaced by the host in mid-session dotu=%v", dotu)
+	return Scenario{Name: name, Run: func(rc *RunCtx) *Result {
+		res := &Result{Exhaustive: true}
+		seen := map[string]bool{}
+		fail := func(sig, msg string) {
+			if !seen[sig] && len(res.Findings) < 6 {
+				seen[sig] = true
+				res.Findings = append(res.Findings, Finding{Sig: "C18/" + sig, Msg: msg})
+			}
+		}
+		for _, prime := range [][]string{nil, {".."}, {"d", "..", ".."}} {
+			for _, w := range [][]string{{".."}, {"..", ".."}, {"d", "..", ".."}, {"..", "canary"}} {
+				env := c18Setup()
+				var leak string
+				var before string
+				body := func() {
+					h := newUfsH(env.root, 8216, dotu)
+					cl := h.Connect()
+					ver := "9P2000"
+					if dotu {
+						ver = "9P2000.u"
+					}
+					cl.Version(8216, ver)
+					tag := uint16(1)
+					rpc := func(m *wire.Msg) *wire.Msg {
+						tag++
+						m.Tag = tag
+						r := cl.Rpc(m)
+						if l := env.leak(r); l != "" && leak == "" {
+							leak = fmt.Sprintf("%s -> %s", m, l)
+						}
+						return r
+					}
+					rpc(tattach(0, 0, wire.NOFID, "", uint32(os.Geteuid()), dotu))
+					if prime != nil {
+						rpc(twalk(0, 0, 1, prime...))
+					}
+					os.Rename(env.root, env.root+"-old")
+					os.MkdirAll(filepath.Join(env.root, "d"), 0o755)
+					os.WriteFile(filepath.Join(env.root, "x"), []byte("inside x, new"), 0o644)
+					before = env.outsideState()
+					if r := rpc(twalk(0, 0, 2, w...)); r != nil && r.Type == wire.Rwalk && len(r.Wqid) == len(w) {
+						rpc(&wire.Msg{Type: wire.Tstat, Fid: 2})
+						rpc(twalk(0, 2, 3, "canary"))
+						if o := rpc(&wire.Msg{Type: wire.Topen, Fid: 2, Mode: 0}); o != nil && o.Type == wire.Ropen {
+							rpc(&wire.Msg{Type: wire.Tread, Fid: 2, Offset: 0, Count: 4096})
+						}
+						rpc(twalk(0, 2, 4))
+						rpc(&wire.Msg{Type: wire.Tcreate, Fid: 4, Name: "escaped", Perm: 0644, Mode: 1})
+					}
+				}
+				x := vs.Run(nil, body, vs.Options{Horizon: 100000000})
+				res.Evals++
+				res.Nontrivial++
+				what := fmt.Sprintf("walked %v, then the host replaced the exported directory, then walked %v", prime, w)
+				if len(x.Panics) > 0 {
+					fail("panic/"+x.Panics[0].Frame, what+": panic "+x.Panics[0].Value)
+				}
+				if leak != "" {
+					fail("leak/root-replaced", what+": "+leak)
+				}
+				if after := env.outsideState(); before != "" && after != before {
+					fail("outside-modified/root-replaced", what+" changed something outside the export:\n"+diffLines(before, after))
+				}
+				os.RemoveAll(env.base)
+			}
+		}
+		return res
+	}}
+}
+
 // c18Check inspects a reply for anything that belongs to the outside.
 func (e *c18Env) leak(r *wire.Msg) string {
 	if r == nil {
@@ -804,6 +879,7 @@ func c18Scenarios(tier string) []Scenario {
 	// PATH_MAX is 4096 on the host: every spelled length from well below to beyond it
 	out = append(out, c18LongPaths(false, 4060, 4082), c18LongPaths(true, 4083, 4104))
 	out = append(out, c18ReplacedByLink(false), c18ReplacedByLink(true))
+	out = append(out, c18RootReplaced(false), c18RootReplaced(true))
 	bp := 1
 	if tier == "thorough" {
 		bp = 2
